@@ -6,6 +6,7 @@ package main
 // helper_run); keep the two in step.
 
 import (
+	"encoding/hex"
 	"fmt"
 	"io"
 	"os"
@@ -86,6 +87,25 @@ func helperMain() {
 			helperUsage()
 		}
 		fmt.Fprint(os.Stderr, a[0])
+	case "unhex", "unhexerr":
+		// the bytes spelled by one word of lower-case hexadecimal, to stdout / stderr
+		if len(a) != 1 || len(a[0])%2 != 0 {
+			helperUsage()
+		}
+		for _, c := range a[0] {
+			if !(c >= '0' && c <= '9' || c >= 'a' && c <= 'f') {
+				helperUsage()
+			}
+		}
+		raw, err := hex.DecodeString(a[0])
+		if err != nil {
+			helperUsage()
+		}
+		if args[0] == "unhex" {
+			os.Stdout.Write(raw)
+		} else {
+			os.Stderr.Write(raw)
+		}
 	case "cat":
 		if len(a) != 0 {
 			helperUsage()
